@@ -246,9 +246,11 @@ impl<A: LoadableAsset + SeekableAsset> TapeImpl for Tap<A> {
     }
 
     fn stop(&mut self) {
-        let state = self.state;
-        self.prev_state = state;
-        self.state = TapeState::Stop;
+        // A second stop must not forget where the first one stopped
+        if self.state != TapeState::Stop {
+            self.prev_state = self.state;
+            self.state = TapeState::Stop;
+        }
     }
 
     fn play(&mut self) {
